@@ -693,5 +693,9 @@ def check(ctx: Ctx) -> None:
     from .c20 import visitor_table
     render_uses_copy(SharedCtx(ctx, lambda r: "C10.render" if r == "C08.render" else None), I)
     visitor_table(SharedCtx(ctx, lambda r: "C10.jsx" if r == "C20.collect" else None), I)
+    # a document reports the dependencies of all of its content: a lone <html>/<body> is only taken as the root when nothing else
+    # (no dependency, no head_content()) stands next to it
+    from .c11 import case_table
+    case_table(SharedCtx(ctx, lambda r: "C10.render" if r == "C11.R2" else None, select=lambda w: "only when the content is exactly that one element" in w), I)
     version_field(ctx)
     init_validation(ctx, I)
